@@ -13,6 +13,7 @@ import CvDriver.C14
 import CvDriver.C01
 import CvDriver.C06b
 import CvDriver.C19b
+import CvDriver.C14b
 open Drv
 
 structure DState where
@@ -26,6 +27,7 @@ structure DState where
   geom : GeomSt := {}
   ratchet : RatchetSt := {}
   acf : AcfSt := {}
+  walkers : WalkersSt := {}
 
 def stepLine (s : DState) (ln : Nat) (line : String) : DState × List String :=
   let t := toks line
@@ -41,6 +43,9 @@ def stepLine (s : DState) (ln : Nat) (line : String) : DState × List String :=
     | none =>
     match c19b s.acf ln t with
     | some o => (s, o)
+    | none =>
+    match c14b s.walkers ln t with
+    | some (m, o) => ({ s with walkers := m }, o)
     | none =>
     match c18 ln t with
     | some o => (s, o)
